@@ -364,13 +364,15 @@ def observe_calls(cluster: Cluster):
     return out
 
 
-def run(sc, live_builder=None, passes=1, decorate=None):
+def run(sc, live_builder=None, passes=1, decorate=None, faults=None):
     """Realise and reconcile `sc` with the real code.  Returns (observations, real) where observations is a
     list with one entry per pass: {'outcome', 'calls', 'match', 'live_before', 'prepared_ok'}."""
     import koreo.resource_function.reconcile as rec_mod
     drivers.reset_all()
     r = realise(sc)
     r.cluster.decorate = decorate
+    if faults:
+        r.cluster.faults = dict(faults)
     seen = {}
     orig = rec_mod.validate_match
 
@@ -411,6 +413,7 @@ def run(sc, live_builder=None, passes=1, decorate=None):
                 out = {"cls": "Raise", "exc": type(e).__name__, "msg": str(e)[:200]}
             calls = observe_calls(r.cluster)[n0:]
             obs.append({"outcome": out, "calls": calls, "match": seen.get("match"), "target": seen.get("target"),
+                        "lookups": list(r.cluster.lookups),
                         "before": {"/".join(map(str, k)): v for k, v in before.items()}})
         return obs
 
@@ -604,6 +607,13 @@ def prepare_live(sc, rng):
         sc["live"], sc["drift_path"] = drift_obj(body, rng)
     elif mode == "noowner":
         body.get("metadata", {}).pop("ownerReferences", None)
+        sc["live"] = body
+    elif mode == "terminating":
+        # an object that matches but is being deleted by the API server
+        md = body.setdefault("metadata", {})
+        md["deletionTimestamp"] = "2024-01-01T00:00:00Z"
+        md["deletionGracePeriodSeconds"] = 0
+        md["finalizers"] = ["example.dev/cleanup"]
         sc["live"] = body
     else:
         sc["live"] = fallback
